@@ -2,6 +2,7 @@ package props
 
 import (
 	"bytes"
+	"crypto/elliptic"
 	"fmt"
 	"math/big"
 	"testing"
@@ -32,6 +33,7 @@ func init() {
 		Real:  []string{"sm2 (Encrypt, EncryptASN1, Decrypt, PrivateKey.Decrypt, AdjustCiphertextSplicingOrder, ASN1Ciphertext2Plain, PlainCiphertext2ASN1)", "internal/sm3 KDF, internal/sm2ec (per node)"},
 		Stubs: []string{"ephemeral scalar source: scripted reader", "relays and transport (layout conversion chains, alteration, truncation, C1 substitution, wrong recipient)"},
 		Assume: []string{"model: GB/T 32918.4 encryption/decryption with math/big affine arithmetic and the SM3 model (anchored on the GB/T 32918.5 example at worker start-up)",
+			"sm2.PrivateKey objects are not re-keyed after use (the library's own cached (d+1)^-1 already makes that unsupported); the legacy-curve path (P-224/256/384/521) is checked by round trip and tamper refusal only (no model for those curves)",
 			"the constructive A5-retry generator searches the first scalar with the library's curve arithmetic and confirms it with the model",
 			"an altered byte string that the library decrypts to the ORIGINAL message (an equivalent re-encoding) is not a violation; any other plaintext is"},
 	})
@@ -49,11 +51,18 @@ func genC07(r *sim.Rand, tier string) *sim.Program {
 	for i := 0; i < nops; i++ {
 		if nct == 0 || r.Chance(1, 3) {
 			lay := r.Intn(5) // 0 C1C3C2, 1 C1C2C3, 2 ASN.1, 3 C1C3C2 compressed, 4 C1C2C3 compressed
-			switch r.Intn(10) {
+			switch r.Intn(12) {
 			case 0, 1:
 				p.Add("zeroc2", lay, r.PickInt(1, 1, 2, 32, 33, 100), r.Intn(1<<30))
 			case 2:
 				p.Add("retry", lay, r.Intn(1<<30))
+			case 10:
+				// ephemeral scalars whose point has a coordinate with two or more leading zero bytes (facts about the curve,
+				// re-checked with the model at run time): minimal INTEGER / fixed-width encodings of C1
+				p.Add("smallc1", lay, r.PickInt(17883, 60190, 84295, 126495, 173403, 193197, 252436, 302857)).WithB(r.Bytes(msgLen()))
+			case 11:
+				// the same algorithms over another curve (sm2_legacy.go): round trip and tamper checks only
+				p.Add("legacy", r.Intn(4), r.Intn(5), r.Intn(1<<30)).WithB(r.Bytes(r.PickInt(1, 32, 33, 100)))
 			default:
 				p.Add("enc", lay, r.Intn(1<<30)).WithB(r.Bytes(msgLen()))
 			}
@@ -192,7 +201,10 @@ func execC07(t *testing.T, p *sim.Program, c *sim.Ctx) {
 		// the ciphertext must be exactly what the standard algorithm produces for this k
 		c1, c2, c3, ok := sm2m.EncryptWithK(pub, k, msg)
 		if !ok {
-			c.Fail("harness", i, kind, "model refused the scripted scalar")
+			// the scripted scalar has an all-zero mask for this message length (1 in 256 for one byte): the
+			// algorithm legitimately drew another one from the filler; this delivery is not judged
+			// (the retry branch has its own constructive operation)
+			c.Hit("probe:natural-zero-mask-not-judged")
 			return
 		}
 		want := c07Marshal(lay, c1, c2, c3[:])
@@ -232,6 +244,82 @@ func execC07(t *testing.T, p *sim.Program, c *sim.Ctx) {
 				return
 			}
 			record(i, op.K, lay, msg, ct, k)
+		case "smallc1":
+			lay := ((op.Int(0) % 5) + 5) % 5
+			kv := op.Int(1)
+			if kv < 1 {
+				kv = 17883
+			}
+			k := big.NewInt(int64(kv))
+			msg := op.Bytes(0)
+			if len(msg) == 0 {
+				msg = []byte{0x5a}
+			}
+			pt := sm2m.ScalarBaseMult(k)
+			if pt.X.BitLen() <= 240 || pt.Y.BitLen() <= 240 {
+				c.Hit("probe:c1-coordinate-with-leading-zero-bytes")
+			}
+			c.Abs("smallc1", lay)
+			rd := &sim.ScriptReader{Data: k.FillBytes(make([]byte, 32)), Fill: 9, Step: 5}
+			ct, err := sm2.Encrypt(rd, &priv.PublicKey, msg, c07Opts(lay))
+			if err != nil {
+				c.Fail("encrypt-failed", i, op.K, "encryption failed: %v", err)
+				return
+			}
+			record(i, op.K, lay, msg, ct, k)
+		case "legacy":
+			curves := []elliptic.Curve{elliptic.P224(), elliptic.P256(), elliptic.P384(), elliptic.P521()}
+			cv := curves[((op.Int(0)%4)+4)%4]
+			lay := ((op.Int(1) % 5) + 5) % 5
+			msg := op.Bytes(0)
+			if len(msg) == 0 {
+				msg = []byte{0x5a}
+			}
+			c.Abs("legacy", op.Int(0)%4, lay)
+			c.Hit("probe:legacy-curve-round-trip")
+			bl := (cv.Params().BitSize + 7) / 8
+			db := derive(append([]byte(fmt.Sprint(op.Int(2))), p.CB("d")...), "ld", bl)
+			db[0] = 0
+			db[bl-1] |= 1
+			lp := new(sm2.PrivateKey)
+			lp.Curve = cv
+			lp.D = new(big.Int).SetBytes(db)
+			lp.X, lp.Y = cv.ScalarBaseMult(db)
+			kb := derive(append([]byte(fmt.Sprint(op.Int(2))), p.CB("d")...), "lk", 2*bl+16)
+			for j := range kb {
+				if j%bl == 0 {
+					kb[j] = 0 // every scripted block is below the group order
+				}
+			}
+			ct, err := sm2.Encrypt(&sim.ScriptReader{Data: kb, Fill: 1, Step: 0}, &lp.PublicKey, msg, c07Opts(lay))
+			c.OutErr("legacy-enc", err)
+			if err != nil {
+				c.Fail("encrypt-failed", i, op.K, "encryption over %s failed: %v", cv.Params().Name, err)
+				return
+			}
+			c.Out("legacy-ct", ct)
+			got, err := c07LibDecrypt(lp, lay, ct)
+			if err != nil || !bytes.Equal(got, msg) {
+				c.Fail("roundtrip", i, op.K, "%s, layout %d: decrypting what the library encrypted does not return the message: %v", cv.Params().Name, lay, err)
+				return
+			}
+			// every truncation must be refused without a panic
+			for k := 1; k < len(ct) && k <= 140; k += 1 + k/16 {
+				if g, err := c07LibDecrypt(lp, lay, ct[:len(ct)-k]); err == nil && len(g) >= len(msg) {
+					c.Fail("invalid-ciphertext-accepted", i, op.K, "%s: a truncated ciphertext decrypts", cv.Params().Name)
+					return
+				}
+			}
+			// every sampled byte alteration must be refused (or, for an equivalent re-encoding, return the message)
+			stride := 1 + len(ct)/24
+			for pos := 0; pos < len(ct); pos += stride {
+				m := append([]byte{}, ct...)
+				m[pos] ^= 0x20
+				if g, err := c07LibDecrypt(lp, lay, m); err == nil && !bytes.Equal(g, msg) {
+					c.Fail("invalid-ciphertext-accepted", i, op.K, "%s: an altered ciphertext decrypts to another message", cv.Params().Name)
+					return
+				}
+			}
 		case "zeroc2":
 			// constructive: the message equals the mask, so C2 is all zero - a legitimate output of the algorithm
 			lay := ((op.Int(0) % 5) + 5) % 5
